@@ -303,6 +303,24 @@ pub fn run_schedule(rec: &mut Rec, seed: u64, run: u64, line: &str) {
             step += 1;
         }
     }
+    if kind == "pair" {
+        // two-hop routes a -> b -> c over every ordered triple: stored only when BOTH hops are registered pairs
+        let owner = g.w.owner.clone();
+        let n = universe.len();
+        for i in 0..n { for j in 0..n { for k in 0..n {
+            if i == j || j == k || i == k { continue; }
+            let path = vec![universe[i].clone(), universe[j].clone(), universe[k].clone()];
+            let (a, b, c) = (g.asset(&path[0]), g.asset(&path[1]), g.asset(&path[2]));
+            let hops = vec![SwapOperation::TerraSwap { offer_asset_info: a.info(), ask_asset_info: b.info() },
+                            SwapOperation::TerraSwap { offer_asset_info: b.info(), ask_asset_info: c.info() }];
+            let route = SwapRoute { offer_asset_info: a.info(), ask_asset_info: c.info(), swap_operations: hops };
+            let reg = [g.entry("pair", &vec![path[0].clone(), path[1].clone()]).is_some(), g.entry("pair", &vec![path[1].clone(), path[2].clone()]).is_some()];
+            let rs = g.w.exec(&owner, &g.hub.pool_router.clone(), &white_whale_std::pool_network::router::ExecuteMsg::AddSwapRoutes { swap_routes: vec![route] }, &[]);
+            rec.emit(json!({"ev": "route_add2", "run": run, "step": step, "actor": "owner", "args": {"path": path, "kind": kind},
+                "res": rs.tag(), "err": jerr(&rs.err()), "dpre": "-", "dpost": "-", "obs": {"registered": reg}}));
+            step += 1;
+        } } }
+    }
     let _ = Uint128::zero();
 }
 
